@@ -775,6 +775,10 @@ class Case:
                     return False
                 if d is not None and self.loc(d) != self.loc(x):
                     self.fail("C18:dressed-object-elsewhere", f"after `{after}`: {hn}.{n} is an object at {self.loc(d)}, the buffer data of that field is at {self.loc(x)}")
+                    if str(after).startswith("copy ") and k == "R":
+                        # HybridClass.copy() is one of the copies C09 is about: references inside the copy resolve in the copy's own buffer
+                        self.fail("C09:hybrid-copy-reference-outside-its-buffer", f"after `{after}`: the reference {hn}.{n} of the copy yields an object at "
+                                  f"{self.loc(d)}; the copy's buffer holds the duplicate at {self.loc(x)}")
                     return False
         return True
 
@@ -1171,6 +1175,30 @@ def corpus_history7(r, fails, tags):
     return c
 
 
+def corpus_history9(r, fails, tags):
+    """a container is created FIRST at the start of its buffer with a null reference, the referent after it, then bound; the container
+    is copied into an empty buffer: the duplicate of the referent lands at the very offset the original referent has in ITS buffer.
+    The copy's reference must denote the duplicate (an object of the copy's buffer), also for a copy of the copy and in another context"""
+    c = Case(r, fails, tags, force={"k1": "R", "k1b": None, "k2": "N", "k3": "R"})
+    c.op_new(ci=1, bi=0, given={"leaf": None})
+    if "H1" in c.handles and c.check_mirror(c.ops[-1]):
+        for name, kw in [("op_new", dict(ci=0, bi=0)), ("op_set", dict(target=("H1", "leaf"), source="H2")), ("op_get", dict(target=("H1", "leaf"))),
+                         ("op_copy", dict(target=("H1", 1))), ("op_get", dict(target=("H4", "leaf"))), ("op_arr", dict(target="H2")),
+                         ("op_copy", dict(target=("H1", 2))), ("op_get", dict(target=("H6", "leaf"))), ("op_str", dict(target="H2")),
+                         ("op_get", dict(target=("H4", "leaf"))), ("op_copy", dict(target=("H4", 2))), ("op_get", dict(target=("H9", "leaf"))),
+                         ("op_get", dict(target=("H1", "leaf")))]:
+            before = len(c.ops)
+            c.last_target = None
+            c.last_field = None
+            try:
+                getattr(c, name)(**kw)
+            except KeyError:
+                break
+            if len(c.ops) > before and not c.check_mirror(c.ops[-1]):
+                break
+    return c
+
+
 def corpus_history8(r, fails, tags):
     """objects of a class exist; another class is defined from `{**Class._xofields, extra}` (extra dynamic field last / first):
     the existing objects, and new objects of the first class, still mirror their data"""
@@ -1214,7 +1242,7 @@ def run_all(tier, seed, extra=None):
     n_hist = {"quick": 40, "thorough": 6000}[tier]
     cases, expects, ctxs = [], [], []
     for hi in range(n_hist):
-        c = corpus_history(r, fails, tags) if hi == 0 else corpus_history2(r, fails, tags) if hi == 1 else corpus_history3(r, fails, tags) if hi == 2 else corpus_history4(r, fails, tags) if hi == 3 else corpus_history5(r, fails, tags) if hi == 4 else corpus_history6(r, fails, tags) if hi == 5 else corpus_history7(r, fails, tags) if hi == 6 else corpus_history8(r, fails, tags) if hi == 7 else run_history(r, fails, tags, r.choice([8, 14, 24]))
+        c = corpus_history(r, fails, tags) if hi == 0 else corpus_history2(r, fails, tags) if hi == 1 else corpus_history3(r, fails, tags) if hi == 2 else corpus_history4(r, fails, tags) if hi == 3 else corpus_history5(r, fails, tags) if hi == 4 else corpus_history6(r, fails, tags) if hi == 5 else corpus_history7(r, fails, tags) if hi == 6 else corpus_history8(r, fails, tags) if hi == 7 else corpus_history9(r, fails, tags) if hi == 8 else run_history(r, fails, tags, r.choice([8, 14, 24]))
         if extra:
             extra(c, r)
         cases.append(c.ops)
